@@ -17,6 +17,7 @@ from .common import Violation, f2h, h2f
 
 _SIGS = None
 _TR = None
+LAST = {}      # side results of the last correspondence run (driver lgamma error)
 
 
 def translator():
@@ -380,8 +381,10 @@ def lgamma_tables(cases):
                 c["lg"] = m.lgamma_table(c["name"], c["args"])
 
 
-def run_model(cases):
-    """list of None (bad-op) | (pre: bool, exact: bool, [float | None])"""
+def run_model(cases, lgamma_probe=None):
+    """list of None (bad-op) | (pre: bool, exact: bool, [float | None]).
+    With `lgamma_probe` (a list of doubles) the driver's own lgamma is evaluated in the same process and the
+    function returns (outs, [values])."""
     lgamma_tables(cases)
     lines_in = []
     for i, c in enumerate(cases):
@@ -389,30 +392,42 @@ def run_model(cases):
         if c["lg"]:
             ln += " | " + " ".join(f"{k} {f2h(v)}" for k, v in c["lg"].items())
         lines_in.append(ln + "\n")
+    for j, x in enumerate(lgamma_probe or []):
+        lines_in.append(f"lg L{j} {f2h(x)}\n")
     lines = common.lean_driver("Kernels", "".join(lines_in))
     outs = [None] * len(cases)
+    probe = [None] * len(lgamma_probe or [])
     for ln in lines:
         w = ln.split()
         if not w:
+            continue
+        if w[0].startswith("L"):
+            probe[int(w[0][1:])] = h2f(w[2])
             continue
         i = int(w[0])
         if w[1:] == ["bad-op"]:
             continue
         outs[i] = (w[1] != "0", w[1] == "1", [None if x == "nan" else h2f(x) for x in w[2:]])
-    return outs
+    return outs if lgamma_probe is None else (outs, probe)
+
+
+def lgamma_points(rng, n=400):
+    return [logu(rng, 1e-6, 1e8) for _ in range(n)] + [1.0, 2.0, 0.5, 1.5, 3.0, 15.999, 16.0, 1e-300]
+
+
+def lgamma_error(xs, vals):
+    worst = 0.0
+    for x, v in zip(xs, vals):
+        ref = math.lgamma(x)
+        worst = max(worst, abs(v - ref) / max(1.0, abs(ref)))
+    return worst
 
 
 def lgamma_check(rng, n=400):
     """max relative error of the driver's lgamma against math.lgamma (scale: max(1, |lgamma|))"""
-    xs = [logu(rng, 1e-6, 1e8) for _ in range(n)] + [1.0, 2.0, 0.5, 1.5, 3.0, 15.999, 16.0, 1e-300]
-    text = "".join(f"lg {i} {f2h(x)}\n" for i, x in enumerate(xs))
-    worst = 0.0
-    for ln in common.lean_driver("Kernels", text):
-        w = ln.split()
-        i, v = int(w[0]), h2f(w[2])
-        ref = math.lgamma(xs[i])
-        worst = max(worst, abs(v - ref) / max(1.0, abs(ref)))
-    return worst
+    xs = lgamma_points(rng, n)
+    _, vals = run_model([], xs)
+    return lgamma_error(xs, vals)
 
 
 def scale_of(c):
@@ -476,8 +491,10 @@ def compare_case(c, real, model):
 def correspondence(ctx, cases):
     """Returns (real_outputs, model_outputs, corr_failures, stats)."""
     reals = [run_real(c["name"], c["args"]) for c in cases]
-    models = run_model(cases)
+    xs = lgamma_points(ctx.rng(12), 200)
+    models, vals = run_model(cases, xs)
     fails, stats = [], {}
+    LAST["lgamma_driver_max_rel_err"] = lgamma_error(xs, vals)
     for c, r, m in zip(cases, reals, models):
         st, detail = compare_case(c, r, m)
         d = stats.setdefault(c["name"], {})
